@@ -202,6 +202,7 @@ func (e *Exec) inlineDep(pkgPath string) bool {
 // applyContract is the modular call rule: assert pre, havoc frame, assume post.
 func (e *Exec) applyContract(fr *Frame, ins ssa.Instruction, ctr *Contract, names []string, args []Val, resT types.Type, st *State, g string, isGo bool) Val {
 	site := e.siteName(ctr.Key)
+	e.P.Trusted["used contract: "+ctr.Key] = true
 	if ctr.Kind == "extern" {
 		e.P.Trusted["extern contract: "+ctr.Key] = true
 	}
@@ -258,7 +259,12 @@ func (e *Exec) applyContract(fr *Frame, ins ssa.Instruction, ctr *Contract, name
 
 // havocLoc havocs one location named by a modifies clause (evaluated in the pre state).
 func (e *Exec) havocLoc(m Clause, env *Env, pre, post *State) {
-	loc := e.evalLoc(m.E, env)
+	for _, loc := range e.evalLocs(m.E, env) {
+		e.havocOne(m, loc, env, pre, post)
+	}
+}
+
+func (e *Exec) havocOne(m Clause, loc location, env *Env, pre, post *State) {
 	switch loc.kind {
 	case "ghost":
 		for _, comp := range loc.comps {
